@@ -210,6 +210,15 @@ def run(ctx, chk):
                     mp = ef['args'][1]
                 if nm in ('collect', 'for_each', 'count', 'last', 'fold', 'for_each_mut') and 'map#' in fmt(ef['args'][0]):
                     consumed = True
+                    if nm == 'collect':
+                        targs = [b.crate.types[t_]['s'] for t_ in ((ef['fn'] or {}).get('targs') or [])]
+                        sc = [s_ for s_ in targs[1:] if s_.startswith(('std::result::Result', 'std::option::Option'))]
+                        chk.ob('C15.N4', 'broadcast:consumer-does-not-short-circuit', not sc, ef['site'][2],
+                               'the chain is collected into %s%s' % (targs[1:] or '?', ' -- collecting into Result/Option stops at the first '
+                               'failed send (e.g. the dead worker\'s closed mailbox), so later workers never get ThreadAbort' if sc else ''))
+                if nm in ('try_for_each', 'all', 'any', 'find', 'find_map', 'position', 'try_fold', 'take_while', 'map_while') and 'map#' in fmt(ef['args'][0]):
+                    chk.ob('C15.N4', 'broadcast:consumer-does-not-short-circuit', False, ef['site'][2],
+                           'the chain is driven by %s, which stops early' % nm)
             if 'keys' not in names and 'iter' not in names:
                 chk.ob('C15.N4', 'broadcast:iterates-all-channels', False, p.where[2], 'broadcast does not iterate the dispatch box: %s' % names)
         chk.ob('C15.N4', 'broadcast:iterator-consumed', consumed, b.where(0),
